@@ -44,6 +44,38 @@ class SimCustomError(Exception):
         self.op = op
 
 
+def _mk_unicode(x):
+    return UnicodeDecodeError("utf-8", b"\x80abc", 0, 1, "invalid start byte (%s)" % (x,))
+
+
+class SimDerivedOSError(OSError):
+    pass
+
+
+EXC_KINDS = {
+    "perm": lambda x: PermissionError(13, "account %s is frozen" % (x,)),
+    "notfound": lambda x: FileNotFoundError(2, "no such file", str(x)),
+    "timeout": lambda x: TimeoutError("timed out %s" % (x,)),
+    "conn": lambda x: ConnectionResetError(104, "reset %s" % (x,)),
+    "oserr": lambda x: OSError("plain os error %s" % (x,)),
+    "oserr-sub": lambda x: SimDerivedOSError(5, "derived %s" % (x,)),
+    "mem": lambda x: MemoryError("out of memory %s" % (x,)),
+    "stopiter": lambda x: StopIteration(x),
+    "assert": lambda x: AssertionError(x),
+    "unicode": _mk_unicode,
+    "recursion": lambda x: RecursionError("maximum recursion depth exceeded (%s)" % (x,)),
+    "notimpl": lambda x: NotImplementedError(x),
+    "zerodiv": lambda x: ZeroDivisionError("division by zero (%s)" % (x,)),
+    "attr": lambda x: AttributeError("no attribute %s" % (x,)),
+    "eof": lambda x: EOFError(x),
+    "arith": lambda x: OverflowError(x),
+    "lookup": lambda x: LookupError(x),
+    "runtime": lambda x: RuntimeError(x),
+    "bufferr": lambda x: BufferError(x),
+    "import": lambda x: ImportError("no module %s" % (x,)),
+}
+
+
 def restore_runtime():
     """Undo the clock / randomness patches of the last Sim (components that need real time run after
     components that used a simulator in the same process)."""
@@ -176,6 +208,14 @@ class Sim(object):
                 sim.execs[self._nid].append((self.raftLastApplied + 1, ("boom", x)))
                 self.log.append(("boom", x))
                 raise SimCustomError(x, "rename")
+
+            # exception classes outside the usual ValueError/KeyError family (a handler that treats some of
+            # them specially must still record the outcome and move on)
+            @so.replicated
+            def boomx(self, x, kind):
+                sim.execs[self._nid].append((self.raftLastApplied + 1, ("boom", x)))
+                self.log.append(("boom", x))
+                raise EXC_KINDS[kind](x)
         return Obj
 
     def _conf(self, i):
